@@ -7,6 +7,10 @@ NOTE = ("verdicts are z3 4.8.12 / z3 5.1.0 / cvc5 1.0 answers over the symgo SSA
         "every bound (lengths, unwinding, allocation, shapes) is listed per obligation in the evidence and checked, not assumed; "
         "translator validated per run by replaying reachability witnesses natively and in concrete mode; ")
 CLAIMED = {
+ "C01": ("soundness of verification as binding obligations: Alh/entry-digest/linear-proof binding, and the client-history chain (honest prefix, one or two adversarial state advances accepted by VerifyDualProof, then a verified read of an earlier transaction) => the accepted past transaction is the honest one; all headers, digests and proof terms symbolic, ids <= 4 (quick) / 5-6 (thorough)",
+         "SHA-256 uninterpreted/collision-free/cycle-free; ECDSA signature checks and the gRPC client/server sequencing are outside the claim; completeness (honest proofs verify) is covered for the tree generators under C08 and by the repository's own tests, not re-proved here yet", "DESIGN.md §4 C01"),
+ "C09": ("integrity-checked reads: value reads return the value of the entry's digest or fail for every value-log content/offset/length; sequential tx scans accept a tx only if it chains to the previous one",
+         "tx-record parser obligations under construction; compressed/chunked logs outside the claim", "DESIGN.md §4 C09"),
  "C08": ("both hash trees against the reference Merkle construction: generated roots/proofs equal the reference and verify; each verifier accepts only proofs binding the claimed position/size/leaf to the honest root, for all symbolic digests within the size bounds",
          "SHA-256 modelled as an uninterpreted function, collision-free and cycle-free among the evaluations of a path; tree sizes <= 8 (quick) / 16 (thorough)", "DESIGN.md §4 C08"),
  "C15": ("round-trip and order obligations of the real codec functions hold for every value of the symbolic inputs within the stated length bounds",
